@@ -108,13 +108,6 @@ func (cb *CircuitBreaker) Execute(fn func() error) error {
 		return err
 	}
 
-	// Increment request count for half-open state
-	cb.mutex.Lock()
-	if cb.state == StateHalfOpen {
-		cb.requestCount++
-	}
-	cb.mutex.Unlock()
-
 	defer func() {
 		if r := recover(); r != nil {
 			cb.afterRequest(false)
@@ -172,28 +165,43 @@ func (cb *CircuitBreaker) beforeRequest() error {
 				cb.requestCount = 0
 				cb.successCount = 0
 			}
+			err := cb.admit()
 			cb.mutex.Unlock()
 			if notify != nil {
 				notify()
 			}
-			return nil
+			return err
 		}
 		return ErrCircuitBreakerOpen
 	}
 
 	// HalfOpen state: check request limit
 	if state == StateHalfOpen {
-		atLimit := cb.requestCount >= cb.maxRequests
 		cb.mutex.RUnlock()
 
-		if atLimit {
-			return ErrTooManyRequests
-		}
-		return nil
+		cb.mutex.Lock()
+		err := cb.admit()
+		cb.mutex.Unlock()
+		return err
 	}
 
 	cb.mutex.RUnlock()
 	return ErrCircuitBreakerOpen
+}
+
+// admit decides admission in the current state and, in half-open state, spends one trial request
+// in the same critical section as the limit check (must be called with the write lock held)
+func (cb *CircuitBreaker) admit() error {
+	switch cb.state {
+	case StateOpen:
+		return ErrCircuitBreakerOpen
+	case StateHalfOpen:
+		if cb.requestCount >= cb.maxRequests {
+			return ErrTooManyRequests
+		}
+		cb.requestCount++
+	}
+	return nil
 }
 
 // afterRequest updates the circuit breaker state after a request
